@@ -53,6 +53,18 @@ func debugAll() {
 		}
 	}
 	fmt.Fprintf(os.Stderr, "debugAll: %d mismatches of %d\n", n, len(lines))
+	if p := os.Getenv("C06_DUMP_ALL"); p != "" {
+		os.WriteFile(p, []byte(strings.Join(dbgLines, "\n")+"\n"), 0o644)
+	}
+	if p := os.Getenv("C06_DUMP_REGRESS"); p != "" {
+		var b strings.Builder
+		for i, l := range lines {
+			if strings.HasPrefix(dbgLines[i], "gen:regress:") {
+				b.WriteString("# " + strings.SplitN(dbgLines[i], "\t", 2)[0] + "\n" + l + "\n")
+			}
+		}
+		os.WriteFile(p, []byte(b.String()), 0o644)
+	}
 }
 
 func (P) Generate(g *core.Gen) {
@@ -96,8 +108,15 @@ func (P) Generate(g *core.Gen) {
 	cs = append(cs, scriptTestCases()...)
 	cs = append(cs, txTestCases("tx_valid.json", true)...)
 	cs = append(cs, txTestCases("tx_invalid.json", false)...)
-	every := g.N(8, 1)
+	every := g.N(10, 1)
 	cs = append(cs, taprootRefCases(every, int(g.Seed%uint64(every)))...)
+	// generated programs
+	keys := makeKeys(r, 5)
+	cs = append(cs, genRegress()...)
+	cs = append(cs, genLimits(g, r, keys)...)
+	cs = append(cs, genSoup(g, r, keys, g.N(7000, 600000))...)
+	cs = append(cs, genSigs(g, r, keys, g.N(4000, 300000))...)
+	cs = append(cs, genWitnessMisc(g, r, keys, g.N(2000, 150000))...)
 	emitSpends(g, cs)
 	sighashCases(g)
 }
